@@ -97,7 +97,7 @@ func c10Specs() []gram.Named {
 
 	for _, n := range gram.Families() {
 		switch n.Name {
-		case "slr-expr", "nullable-chain", "ambig-expr-prec", "nonassoc-cmp", "lalr-not-nqlalr", "list-of-lists", "prec-literal":
+		case "slr-expr", "nullable-chain", "ambig-expr-prec", "nonassoc-cmp", "lalr-not-nqlalr", "list-of-lists", "prec-literal", "duplicate-rule", "default-start":
 			out = append(out, gram.Named{Name: "family-" + n.Name, Spec: n.Spec})
 		}
 	}
